@@ -46,7 +46,19 @@ impl EventStore {
 
         // Determine if we just created it
         // (not long enough for the required end offset)
-        let new = len < mem::size_of::<usize>();
+        let mut new = len < mem::size_of::<usize>();
+
+        // A file that was sized but whose end marker was never written (the process
+        // died during creation) reads as zeroes: that is not a valid end offset, the
+        // map still needs to be initialized.
+        if !new {
+            use std::os::unix::fs::FileExt;
+            let mut end_marker = [0u8; mem::size_of::<usize>()];
+            event_map_file.read_exact_at(&mut end_marker, 0)?;
+            if usize::from_le_bytes(end_marker) < mem::size_of::<usize>() {
+                new = true;
+            }
+        }
 
         // If brand new:
         if new {
